@@ -1,0 +1,24 @@
+//go:build verif
+
+package syncer
+
+import (
+	"github.com/mgtv-tech/redis-GunYu/config"
+	"github.com/mgtv-tech/redis-GunYu/pkg/log"
+	"github.com/mgtv-tech/redis-GunYu/pkg/redis/checkpoint"
+	"github.com/mgtv-tech/redis-GunYu/pkg/redis/client"
+)
+
+// Verification hooks: compiled only with the build tag "verif".
+
+// VerifGcLog runs one pass of the disk cache's size-triggered collector.
+func (sc *StoreChannel) VerifGcLog() {
+	sc.storer.VerifGcLog()
+}
+
+// VerifResolveBisyncCheckpointName forwards to the unexported namespace
+// resolution / mode switch that newOutput performs for bidirectional links.
+func VerifResolveBisyncCheckpointName(cfg SyncerConfig, cli client.Redis, ids []string, mode config.ReplayMode) (string, error) {
+	s := &syncer{cfg: cfg, logger: log.WithLogger(config.LogModuleName("[syncer(verif)] "))}
+	return s.resolveBisyncCheckpointNameWithClient(cli, ids, checkpoint.BisyncModeFromReplayMode(mode), bisyncRecoverySlotsForConfig(cfg.Output))
+}
